@@ -63,6 +63,15 @@ pub fn run(ctx: &mut Ctx) {
             ctx.rep.expect_fail(&id, "kzg10/not-homomorphic", "commit(a p + b q) != a commit(p) + b commit(q)",
                 format!("# scheme: kzg10\n# case {}\n", id));
         }
+        // the public operator `Commitment += (f, &other)` is the same linear map on commitments
+        let mut acc = cp.clone();
+        acc += (b, &cq);
+        let lin2 = &p + &(&q * b);
+        let (cl2, _) = Kzg::commit(&powers, &lin2, None, None).unwrap();
+        if acc != cl2 {
+            ctx.rep.expect_fail(&id, "kzg10/commitment-add-assign", "`c_p += (b, &c_q)` is not commit(p + b q)",
+                format!("# scheme: kzg10\n# case {}\n# p={}\n# q={}\n# b={}\n", id, wire::fes(&p.coeffs), wire::fes(&q.coeffs), wire::fe(&b)));
+        }
         // zero polynomial -> identity; leading zeros irrelevant
         let (cz, _) = Kzg::commit(&powers, &UniPoly::from_coefficients_vec(vec![Fr::zero(); 3]), None, None).unwrap();
         if !cz.0.is_zero() {
